@@ -173,3 +173,6 @@ def run(ctx):
     sites = L.queue_sites(fb, r"^babylon::ConcurrentExecutionQueue<.*>$")
     ctx.floor("C16.R4", len(sites), 9, "queue call sites")
     L.check_queue_pairing(ctx, "C16.R4", sites)
+
+
+SWEEP = ["concurrent/test_execution_queue.cpp"]
